@@ -12,3 +12,6 @@ for id in "$@"; do
   echo "== $id exit=$code :: $(echo "$out" | grep -E 'VIOLATION|what:|MACHINERY' | head -3 | tr '\n' ' ')"
   echo "$out" | tail -1
 done
+
+# the runs above rewrote evidence/*.json from a PATCHED tree: put the committed evidence (clean tree) back
+git -C /verif checkout -q -- evidence 2>/dev/null || true
